@@ -188,6 +188,7 @@ func worker() (code int) {
 	res.Absorbed = p.AbsorbedNames()
 	res.InlineErrors = p.InlineErrors
 	res.Renames = p.Renames
+	res.Restored, res.Folded, res.RestoreError = p.Restored, p.Folded, p.RestoreError
 	for _, pk := range p.Pkgs {
 		res.Funcs += len(p.FuncsOf(pk))
 	}
@@ -426,6 +427,7 @@ func finishProp(prop, tier string, seed int, jobs, mjobs []*job, mutOf map[*job]
 	pkgs, funcs, ssaFuncs := 0, 0, 0
 	absorbed := map[string]bool{}
 	renames := map[string]bool{}
+	restored := map[string]bool{}
 	ruleSites := map[string]int{}
 	baseViol := map[string]map[string]bool{} // config -> violated keys
 	var cfgNames []string
@@ -481,6 +483,9 @@ func finishProp(prop, tier string, seed int, jobs, mjobs []*job, mutOf map[*job]
 		}
 		for _, a := range r.Renames {
 			renames[a] = true
+		}
+		for _, a := range r.Restored {
+			restored[a] = true
 		}
 		for k, v := range r.Rules {
 			if rulePrefix(k) == prop && v > ruleSites[k] {
@@ -646,6 +651,7 @@ func finishProp(prop, tier string, seed int, jobs, mjobs []*job, mutOf map[*job]
 		"ssa_functions":       ssaFuncs,
 		"absorbed_helpers":    sortedKeys(absorbed),
 		"renames_recognised":  sortedKeys(renames),
+		"helpers_restored":    sortedKeys(restored),
 		"rules":               ruleList,
 		"mutants":             map[string]any{"run": len(mr), "killed": mKilled, "stale": mStale, "survived": mSurv, "detail": mr},
 		"checker_cmd":         fmt.Sprintf("/verif/bin/gnetlint -prop %s -tier %s", prop, tier),
